@@ -150,10 +150,59 @@ def instant_until(io, since):
     io.obligations("C06.until")
 
 
+def time_until(io, since):
+    """PlainTime::until / since with default rounding: the exact wall-clock difference (no wrap: -24 h < d < 24 h) balanced to
+    the requested largest unit (hour .. nanosecond, default hour)"""
+    a = any_time(io)
+    b = [io.int("b_" + n, ty, 0, hi) for (n, ty, hi) in TIME_FIELDS]
+    has = io.bool("has_largest")
+    lu = io.cenum("largest", "Unit", [1, 2, 3, 4, 5, 6])
+    if io.kind != "sym":
+        r = io.call(None, [], native=("plain_time_until", ("result", ("agg", ["f64"] * 6)), a + b + [has, lu, symex.Int(1 if since else 0, "u8")]))
+    else:
+        none = lambda nm: symex.Enum(0, {0: [], 1: [symex.Opaque("unset")]}, "Option")
+        largest = symex.Enum(ite(has.t, 1, 0), {0: [], 1: [lu]}, "Option")
+        settings = symex.Agg([largest, none("u"), none("m"), none("i")])
+        op = symex.Enum(1 if since else 0, {0: [], 1: []}, "DifferenceOperation")
+        pt = lambda f: symex.Agg([symex.Agg(f)])
+        r = io.call(("PlainTime", None, "diff_time"), [io.ref(pt(a)), op, io.ref(pt(b)), settings], native=None)
+    na, nb = R.time_ns(*[v.t for v in a]), R.time_ns(*[v.t for v in b])
+    diff = sub(na, nb) if since else sub(nb, na)
+    unit = ite(has.t, lu.d, 6)
+    io.witness("C06.time_until.reach")
+    io.witness("C06.time_until.negative_difference", lt(diff, 0))
+    io.prove("C06.time_until.succeeds", eq(r.d, 0))
+    if 0 in r.v:
+        res = r.v[0][0]
+        vals = list(res.f[1].f) if io.kind == "sym" else list(res.f)
+        g = []
+        for v in vals:
+            while isinstance(v, symex.Agg):
+                v = v.f[0]
+            g.append(v.t)
+        ok = eq(r.d, 0)
+        got = 0
+        for v, u in zip(g, [3600 * 10**9, 60 * 10**9, 10**9, 10**6, 10**3, 1]):
+            got = add(got, mul(u, v))
+        io.prove("C06.time_until.is_exact_difference", eq(got, diff), hyp=ok)
+        io.prove("C06.time_until.sign_uniform", or_(and_(*[ge(v, 0) for v in g]), and_(*[le(v, 0) for v in g])), hyp=ok)
+        CARRY = [None, 60, 60, 1000, 1000, 1000]
+        UIDX = [6, 5, 4, 3, 2, 1]
+        parts = []
+        for k in range(6):
+            parts.append(implies(gt(UIDX[k], unit), eq(g[k], 0)))
+            if k >= 1:
+                parts.append(implies(lt(UIDX[k], unit), and_(lt(g[k], CARRY[k]), gt(g[k], -CARRY[k]))))
+        io.prove("C06.time_until.balanced_to_the_largest_unit", and_(*parts), hyp=ok)
+    io.obligations("C06.time_until")
+
+
 def jobs(tier, seed):
     return [
         ("instant_until", instant_until, {"since": False}, {"timeout": 300, "unroll": 11, "generics": {"T": "i128"}}),
         ("instant_since", instant_until, {"since": True}, {"timeout": 300, "unroll": 11, "generics": {"T": "i128"}}),
+        ("time_until", time_until, {"since": False}, {"timeout": 300, "unroll": 11, "generics": {"T": "i128"}}),
+        ("time_since", time_until, {"since": True}, {"timeout": 300, "unroll": 11, "generics": {"T": "i128"}}),
         ("epoch_ms", epoch_ms, {}, None),
         ("norm_ops", norm_ops, {}, None),
         ("instant_add[|field|<=2^53]", instant_add, {}, None),
